@@ -34,6 +34,11 @@ def key(r, nk):
 NOBIG = [False]
 
 
+def gcopy(r):
+    """a third of the reads go through iwkv_get_copy (value copied out of the mapping into the caller's buffer)"""
+    return " c" if r.random() < 0.35 else ""
+
+
 def vlen(r, big=0.08):
     x = r.random()
     if NOBIG[0]:
@@ -65,10 +70,10 @@ def gen_thread(r, role, nk, L, wal, tid, st):
             elif x < 0.9:
                 ops.append("del %s %s" % (db(), key(r, nk)))
             else:
-                ops.append("get %s %s" % (db(), key(r, nk)))
+                ops.append("get %s %s%s" % (db(), key(r, nk), gcopy(r)))
         elif role == "reader":
             if x < 0.8:
-                ops.append("get %s %s" % (db(), key(r, nk)))
+                ops.append("get %s %s%s" % (db(), key(r, nk), gcopy(r)))
             elif x < 0.9:
                 ops.append("mget %s" % db())
             else:
@@ -77,7 +82,7 @@ def gen_thread(r, role, nk, L, wal, tid, st):
             if x < 0.7:
                 ops.append("put %s %s %d 0" % (db(), "g%d_%02d" % (tid, r.randrange(40)), r.choice([20000, 50000, 90000])))
             else:
-                ops.append("get %s %s" % (db(), key(r, nk)))
+                ops.append("get %s %s%s" % (db(), key(r, nk), gcopy(r)))
         elif role == "scanner":
             if not cur:
                 c = r.randrange(2)
@@ -100,7 +105,7 @@ def gen_thread(r, role, nk, L, wal, tid, st):
                 elif x < 0.75:
                     ops.append("cget %d" % c)
                 elif x < 0.85:
-                    ops.append("get %s %s" % (db(), key(r, nk)))
+                    ops.append("get %s %s%s" % (db(), key(r, nk), gcopy(r)))
                 else:
                     close_all()
         elif role == "admin":
@@ -135,7 +140,7 @@ def gen_thread(r, role, nk, L, wal, tid, st):
             elif x < 0.5:
                 ops.append("del p%d %s" % (s, "q%02d" % r.randrange(6)))
             elif x < 0.6:
-                ops.append("get p%d %s" % (s, "q%02d" % r.randrange(6)))
+                ops.append("get p%d %s%s" % (s, "q%02d" % r.randrange(6), gcopy(r)))
             elif x < 0.85:
                 # a short cursor episode on the private database: move, read, then set or delete what was read
                 c = 2
@@ -151,7 +156,7 @@ def gen_thread(r, role, nk, L, wal, tid, st):
                         break
                 ops.append("cclose %d" % c)
             elif x < 0.93:
-                ops.append("get %s %s" % (db(), key(r, nk)))
+                ops.append("get %s %s%s" % (db(), key(r, nk), gcopy(r)))
             else:
                 ops.append("dbdel %d" % s)
                 del priv[s]
@@ -194,6 +199,28 @@ def gen_case(r, name, tier, directed=None):
             lines.append("%d dbget 50 %d" % (t, fl))
             lines.append("%d get 1 k00" % t)
             roles.append("dbrace")
+        lines.append("run")
+        lines.append("end")
+        return name, lines, dict(nth=nth, wal=wal, roles=roles)
+    if directed == "copyrace":
+        # readers copy large values out of the mapping (iwkv_get_copy, iwkv_get) of database 1 while writers of database 2
+        # make the file grow (remap): the readers' pointers into the mapping must stay pinned for the whole copy
+        nth = r.choice([3, 4])
+        lines[0] = "case %s mode=free wal=%d nth=%d yield=%d dbs=2 timeout=25" % (name, wal, nth, r.choice([300, 600]))
+        nbig = r.choice([1, 3])
+        for i in range(nbig):
+            lines.append("8 put 1 big%d %d 0" % (i, r.choice([70000, 300000, 500000])))
+        nrd = nth - r.choice([1, 1, 2]) if nth > 2 else 1
+        n_ops = 10 if tier == "quick" else 25
+        for t in range(nth):
+            if t < nrd:
+                roles.append("bigreader")
+                for j in range(n_ops):
+                    lines.append("%d get 1 big%d%s" % (t, r.randrange(nbig), " c" if r.random() < 0.7 else ""))
+            else:
+                roles.append("growth")
+                for j in range(n_ops):
+                    lines.append("%d put 2 g%d_%03d %d 0" % (t, t, j, r.choice([100000, 300000, 500000])))
         lines.append("run")
         lines.append("end")
         return name, lines, dict(nth=nth, wal=wal, roles=roles)
@@ -400,7 +427,8 @@ def explore(ctx, hs, drv, n_asan, n_tsan, label, stats):
             continue
         cases = []
         for i in range(n):
-            directed = "dbrace" if r.random() < 0.06 else None
+            x = r.random()
+            directed = "dbrace" if x < 0.06 else "copyrace" if x < 0.10 else None
             cases.append(gen_case(r, "%s-%s-%d" % (label, variant, i), ctx.tier, directed))
         for c in cases[:2]:
             ctx.sample(dict(case=c[0], threads=c[2]["nth"], wal=c[2]["wal"], roles=c[2]["roles"], lines=c[1][:14]))
